@@ -128,6 +128,44 @@ def contexts(call, shadow_names):
     return out
 
 
+# functions that captured `inputs` (the harness binds inputs = {n: 5, s: "str", l: [1, 2, 3]})
+INPUTS_CLOSURES = [
+    ("F = x => #n + x", "F(1)"),
+    ("F = x => inputs.n + x", "F(1)"),
+    ("F = x => inputs[\"n\"] + x", "F(1)"),
+    ("F = () => inputs", "F()"),
+    ("F = x => [#n, #s, #l, #missing]", "F(0)"),
+    ("F = x => (y => #n + y)(x)", "F(1)"),
+    ("mk = () => (x => #n + x)\nF = mk()", "F(1)"),
+    ("mk = k => (x => inputs.n * k + x)\nF = mk(2)", "F(1)"),
+    ("F = x => do {\n  t = #n\n  return t + x\n}", "F(1)"),
+    ("F = x => #l via (e => e + #n + x)", "F(1)"),
+    ("G = x => #n + x\nF = x => G(x) + 1", "F(1)"),
+    ("F = (x, inputs2?) => #n + x", "F(1)"),
+]
+
+
+def inputs_contexts(call):
+    """(name, expression, binds `inputs`?) — the first must be ("top", call, False)"""
+    out = [("top", call, False)]
+    for val in ("{n: 100, s: \"other\", l: [9]}", "999", "null"):
+        out.append(("parameter inputs = " + val, "(inputs => %s)(%s)" % (call, val), True))
+        out.append(("do-local inputs = " + val, "do {\n  inputs = %s\n  return %s\n}" % (val, call), True))
+        out.append(("nested parameter inputs = " + val, "((inputs) => (zz9 => %s)(0))(%s)" % (call, val), True))
+        out.append(("via callback parameter inputs = " + val, "([%s] via (inputs => %s))[0]" % (val, call), True))
+        out.append(("optional parameter inputs = " + val, "((q9, inputs?) => %s)(0, %s)" % (call, val), True))
+    out.append(("optional parameter inputs absent", "((q9, inputs?) => %s)(0)" % call, True))
+    out.append(("rest parameter inputs", "((...inputs) => %s)(1, 2)" % call, True))
+    # controls: contexts that bind other names, incl. the names the bodies use and the input keys
+    for x in ("n", "s", "l", "x", "y", "t", "k", "e", "inputs2", "input"):
+        out.append(("control: parameter " + x, "(%s => %s)(999)" % (x, call), False))
+        out.append(("control: do-local " + x, "do {\n  %s = 999\n  return %s\n}" % (x, call), False))
+    out.append(("control: via callback", "([0] via (q9 => %s))[0]" % call, False))
+    out.append(("control: map callback", "map([0], q9 => %s)[0]" % call, False))
+    out.append(("control: into", "(0 into (q9 => %s))" % call, False))
+    return out
+
+
 def shape_lists(maxlen=3):
     """all parameter lists of the documented shape up to maxlen (+ some undocumented ones)"""
     out = []
@@ -339,6 +377,39 @@ def main(argv):
                               {"kind": "impl-law", "context": cname, "program": p, "reference_program": ref,
                                "observed": last(r), "expected": ref_results[ref],
                                "rerun": "./check C04 --replay <this file>"})
+    # ---------------- INPUTS family: functions that captured `inputs` called from contexts that re-bind
+    # `inputs` (class F9).  While F9 is an open known finding a difference in a context that binds
+    # `inputs` is counted under it; every other difference, and every difference once F9 is closed,
+    # is a violation.  Controls: the same functions under contexts that bind other names.
+    f9_open = any(e["id"] == "F9" for e in known)
+    iprogs, imeta = [], []
+    for defs, call in INPUTS_CLOSURES:
+        ref = defs + "\n" + call
+        for cname, ctx, binds_inputs in inputs_contexts(call):
+            iprogs.append(defs + "\n" + ctx)
+            imeta.append((cname, ref, binds_inputs))
+    irust = es.rust_eval(h, iprogs)
+    iref = {m[1]: last(r) for m, r in zip(imeta, irust) if m[0] == "top"}
+    f9_hits, f9_ctx, i_viol = 0, {}, 0
+    for (cname, ref, binds_inputs), r, p in zip(imeta, irust, iprogs):
+        if "PANIC" in r or r.startswith("ABORT"):
+            res.violation("the evaluator panicked/aborted", {"kind": "impl", "program": p, "observed": r})
+        elif last(r) != iref[ref]:
+            if binds_inputs and f9_open:
+                f9_hits += 1
+                f9_ctx[cname] = f9_ctx.get(cname, 0) + 1
+            else:
+                i_viol += 1
+                if i_viol <= 5:
+                    res.violation("a function that captured `inputs` returned a different result from another call site (%s)" % cname,
+                                  {"kind": "impl-law", "context": cname, "program": p, "reference_program": ref,
+                                   "observed": last(r), "expected": iref[ref],
+                                   "rerun": "./check C04 --replay <this file>"})
+    res.streams["INPUTS family"] = {"programs": len(iprogs), "closures": len(INPUTS_CLOSURES),
+                                    "contexts binding inputs": sum(1 for m in imeta if m[2]),
+                                    "control contexts": sum(1 for m in imeta if not m[2]),
+                                    "differences under open finding F9": f9_hits, "by context": f9_ctx,
+                                    "violations": i_viol}
     # ---------------- DEPTH: the same calls at every level of deep recursions that shadow the names
     dprogs, drust, dforce = depth_family(res, h, tier, seed, wide, meta, ref_results)
     # ---------------- argument binding: all documented parameter lists x argument counts 0..n+3
